@@ -16,8 +16,8 @@
 EXTENDS Naturals, Sequences, FiniteSets, Json, TLC
 
 TraceLog == ndJsonDeserialize("trace.ndjson")
-VARIABLES l, sTr, cTr, pendUp, pendDown, closedS, closedC, cfg, hole, beatS, beatC
-tvars == <<l, sTr, cTr, pendUp, pendDown, closedS, closedC, cfg, hole, beatS, beatC>>
+VARIABLES l, sTr, cTr, pendUp, pendDown, closedS, closedC, cfg, hole, beatS, beatC, owed
+tvars == <<l, sTr, cTr, pendUp, pendDown, closedS, closedC, cfg, hole, beatS, beatC, owed>>
 ASSUME TLCSet(1, 0)
 Rec == TraceLog[l]
 IsEvent(e) == /\ l <= Len(TraceLog) /\ TraceLog[l].ev = e /\ l' = l + 1
@@ -30,16 +30,17 @@ MsgTags(pk) == {pk[i] : i \in {j \in 1..Len(pk) : IsMsg(pk[j])}}
 
 Cfg0 == [first |-> "polling", final |-> "polling", expectClose |-> FALSE, pi |-> 0, pt |-> 0, slack |-> 0, dead |-> FALSE]
 TraceInit == l = 1 /\ sTr = "polling" /\ cTr = "polling" /\ pendUp = {} /\ pendDown = {}
-             /\ closedS = "" /\ closedC = "" /\ cfg = Cfg0 /\ hole = 0 /\ beatS = 0 /\ beatC = 0
+             /\ closedS = "" /\ closedC = "" /\ cfg = Cfg0 /\ hole = 0 /\ beatS = 0 /\ beatC = 0 /\ owed = <<>>
 TReset == /\ IsEvent("reset")
           /\ cfg' = [first |-> Rec.first, final |-> Rec.final, expectClose |-> Rec.expectClose,
                      pi |-> Rec.pi, pt |-> Rec.pt, slack |-> Rec.slack, dead |-> Rec.dead]
-          /\ sTr' = Rec.first /\ cTr' = Rec.first /\ pendUp' = {} /\ pendDown' = {} /\ closedS' = "" /\ closedC' = "" /\ hole' = 0
+          /\ sTr' = Rec.first /\ cTr' = Rec.first /\ pendUp' = {} /\ pendDown' = {} /\ closedS' = "" /\ closedC' = "" /\ hole' = 0 /\ owed' = <<>>
           /\ beatS' = (IF "t0" \in DOMAIN Rec THEN Rec.t0 ELSE 0) /\ beatC' = (IF "t0" \in DOMAIN Rec THEN Rec.t0 ELSE 0)
 
-K == UNCHANGED <<cfg, hole, beatS, beatC>>
+K == UNCHANGED <<cfg, hole, beatS, beatC, owed>>
+KK == UNCHANGED <<cfg, hole, beatS, beatC>>
 \* sends: on the transport that is current at that side
-TSSend == /\ IsEvent("eio.s.send") /\ Rec.tr = sTr
+TSSend == /\ IsEvent("eio.s.send") /\ Rec.tr = sTr /\ owed = <<>>
           /\ MsgTags(Rec.pk) \cap pendDown = {}                    \* every message is sent once
           /\ pendDown' = pendDown \cup MsgTags(Rec.pk)
           /\ UNCHANGED <<sTr, cTr, pendUp, closedS, closedC>> /\ K
@@ -55,9 +56,14 @@ TCRecv == /\ IsEvent("eio.c.recv") /\ MsgTags(Rec.pk) \subseteq pendDown
           /\ pendDown' = pendDown \ MsgTags(Rec.pk)
           /\ UNCHANGED <<sTr, cTr, pendUp, closedS, closedC>> /\ K
 \* swaps; what the server re-sends was sent before and has not arrived
+\* everything the old poll queue still held - heartbeats included, NOOPs excepted - is owed to the new transport
 TSSwap == /\ IsEvent("eio.s.swap") /\ sTr = "polling" /\ Rec.to # "polling"
           /\ MsgTags(Rec.pk) \subseteq pendDown
-          /\ sTr' = Rec.to /\ UNCHANGED <<cTr, pendUp, pendDown, closedS, closedC>> /\ K
+          /\ owed' = SelectSeq(Rec.pk, LAMBDA t : t # "ctl:6")
+          /\ sTr' = Rec.to /\ UNCHANGED <<cTr, pendUp, pendDown, closedS, closedC>> /\ KK
+TSResend == /\ IsEvent("eio.s.resend") /\ owed # <<>> /\ Rec.pk = <<Head(owed)>>
+            /\ owed' = Tail(owed)
+            /\ UNCHANGED <<sTr, cTr, pendUp, pendDown, closedS, closedC>> /\ KK
 TCSwap == /\ IsEvent("eio.c.swap") /\ cTr = "polling" /\ Rec.to # "polling"
           /\ cTr' = Rec.to /\ UNCHANGED <<sTr, pendUp, pendDown, closedS, closedC>> /\ K
 
@@ -72,12 +78,12 @@ TCClose == /\ IsEvent("eio.c.close") /\ cfg.expectClose
            /\ closedC' = Rec.reason /\ UNCHANGED <<sTr, cTr, pendUp, pendDown, closedS>> /\ K
 \* harness: the link was silently black-holed at time t
 THole == /\ IsEvent("proxy.blackhole") /\ hole' = Rec.t
-         /\ UNCHANGED <<sTr, cTr, pendUp, pendDown, closedS, closedC, cfg, beatS, beatC>>
+         /\ UNCHANGED <<sTr, cTr, pendUp, pendDown, closedS, closedC, cfg, beatS, beatC, owed>>
 \* heartbeats received: PONG at the server, PING at the client
 TSPong == /\ IsEvent("eio.s.pong") /\ beatS' = Rec.t
-          /\ UNCHANGED <<sTr, cTr, pendUp, pendDown, closedS, closedC, cfg, hole, beatC>>
+          /\ UNCHANGED <<sTr, cTr, pendUp, pendDown, closedS, closedC, cfg, hole, beatC, owed>>
 TCPing == /\ IsEvent("eio.c.ping") /\ beatC' = Rec.t
-          /\ UNCHANGED <<sTr, cTr, pendUp, pendDown, closedS, closedC, cfg, hole, beatS>>
+          /\ UNCHANGED <<sTr, cTr, pendUp, pendDown, closedS, closedC, cfg, hole, beatS, owed>>
 
 TBeat == /\ \/ IsEvent("eio.s.ping") \/ IsEvent("eio.s.pingtimeout")
             \/ IsEvent("eio.c.pingtimeout") \/ IsEvent("note")
@@ -86,6 +92,7 @@ TBeat == /\ \/ IsEvent("eio.s.ping") \/ IsEvent("eio.s.pingtimeout")
 \* quiescence
 TQuiesce ==
     /\ IsEvent("quiesce")
+    /\ owed = <<>>
     /\ ~cfg.expectClose => (pendUp = {} /\ pendDown = {} /\ sTr = cfg.final /\ cTr = cfg.final
                             /\ closedS = "" /\ closedC = "" /\ Rec.serverTransport = cfg.final /\ Rec.clientTransport = cfg.final)
     \* a dead peer was detected on both sides; with the link dead in both directions the reason is the
@@ -95,7 +102,7 @@ TQuiesce ==
                     /\ Rec.bothWays => (closedS = "ping timeout" /\ closedC = "ping timeout")
     /\ UNCHANGED <<sTr, cTr, pendUp, pendDown, closedS, closedC>> /\ K
 
-TraceNext == TReset \/ TSSend \/ TCSend \/ TSRecv \/ TCRecv \/ TSSwap \/ TCSwap \/ TSClose \/ TCClose \/ THole \/ TSPong \/ TCPing \/ TBeat \/ TQuiesce
+TraceNext == TReset \/ TSSend \/ TCSend \/ TSRecv \/ TCRecv \/ TSSwap \/ TSResend \/ TCSwap \/ TSClose \/ TCClose \/ THole \/ TSPong \/ TCPing \/ TBeat \/ TQuiesce
 TraceSpec == TraceInit /\ [][TraceNext]_tvars
 HWM == IF l > TLCGet(1) THEN TLCSet(1, l) ELSE TRUE
 TraceAccepted == IF TLCGet(1) = Len(TraceLog) + 1 THEN TRUE
